@@ -28,6 +28,10 @@ enum Kind {
     TaskTwoEmitters,
     Thread,
     ThreadColdCache,
+    /// a session / task whose SECOND log append fails (injected I/O error): an early subscriber
+    /// (attached before anything is produced) and a late one must receive the same frames
+    SessionLogFailure,
+    TaskLogFailure,
 }
 
 struct World {
@@ -36,12 +40,65 @@ struct World {
     received: Vec<Arc<Mutex<Vec<(u64, String)>>>>,
     statuses: Vec<Arc<Mutex<Option<u16>>>>,
     expected_frames: usize,
+    /// body of a subscriber attached before the execution started (log-failure kinds)
+    early: Mutex<Option<Body>>,
+}
+
+/// Producer environment: the k-th log append of this actor fails.
+struct FailNthAppend {
+    n: std::cell::Cell<usize>,
+    fail_at: usize,
+}
+
+impl crate::sched::ActorEnv for FailNthAppend {
+    fn fail(&self, name: &str) -> bool {
+        if name != "log.append" {
+            return false;
+        }
+        let k = self.n.get();
+        self.n.set(k + 1);
+        k == self.fail_at
+    }
+}
+
+/// Polls a response body until it has nothing more right now; returns the frames it yielded.
+fn drain_body_now(body: &mut Body) -> Vec<(u64, String)> {
+    struct Noop;
+    impl std::task::Wake for Noop {
+        fn wake(self: Arc<Self>) {}
+    }
+    let waker = std::task::Waker::from(Arc::new(Noop));
+    let mut cx = std::task::Context::from_waker(&waker);
+    let mut buf = String::new();
+    let mut out = Vec::new();
+    for _ in 0..1000 {
+        match Pin::new(&mut *body).poll_frame(&mut cx) {
+            Poll::Ready(Some(Ok(frame))) => {
+                if let Ok(data) = frame.into_data() {
+                    buf.push_str(&String::from_utf8_lossy(&data));
+                    while let Some(idx) = buf.find("\n\n") {
+                        let block: String = buf[..idx].to_string();
+                        buf.drain(..idx + 2);
+                        for line in block.lines() {
+                            if let Some(rest) = line.strip_prefix("data:") {
+                                if let Ok(v) = serde_json::from_str::<Value>(rest.trim_start()) {
+                                    out.push((v["seq"].as_u64().unwrap_or(u64::MAX), v["id"].as_str().unwrap_or("").to_string()));
+                                }
+                            }
+                        }
+                    }
+                }
+            }
+            _ => break,
+        }
+    }
+    out
 }
 
 fn filter_for(kind: Kind) -> Vec<&'static str> {
     match kind {
-        Kind::Session => vec!["sess.publish", "sess.buffer", "sse.session.*", "sub.*", "start"],
-        Kind::Task | Kind::TaskTwoEmitters => vec!["task.publish", "task.buffer", "task.seq", "sse.task.*", "sub.*", "start"],
+        Kind::Session | Kind::SessionLogFailure => vec!["sess.publish", "sess.buffer", "sse.session.*", "sub.*", "start"],
+        Kind::Task | Kind::TaskTwoEmitters | Kind::TaskLogFailure => vec!["task.publish", "task.buffer", "task.seq", "sse.task.*", "sub.*", "start"],
         Kind::Thread | Kind::ThreadColdCache => vec![
             "cont.publish",
             "sse.thread.*",
@@ -130,7 +187,7 @@ fn make_world(kind: Kind, rt: &Arc<tokio::runtime::Runtime>, subscribers: usize)
     let mut actors: Vec<ActorBody> = Vec::new();
     let (stream_id, uri, expected_frames): (String, String, usize);
     match kind {
-        Kind::Session => {
+        Kind::Session | Kind::SessionLogFailure => {
             let resp = rt.block_on(router.clone().oneshot(Request::builder().method("POST").uri("/sessions").body(Body::empty()).unwrap())).unwrap();
             let bytes = rt.block_on(http_body_util::BodyExt::collect(resp.into_body())).unwrap().to_bytes();
             let v: Value = serde_json::from_slice(&bytes).unwrap();
@@ -138,15 +195,19 @@ fn make_world(kind: Kind, rt: &Arc<tokio::runtime::Runtime>, subscribers: usize)
             let handle = rt.block_on(app.session_handle(&sid)).expect("handle");
             let engine = fx.engine.clone();
             let rt2 = rt.clone();
+            let failing = kind == Kind::SessionLogFailure;
             actors.push(Box::new(move |ctx: &ActorCtx| {
                 let _g = rt2.enter();
+                if failing {
+                    ctx.set_env(Box::new(FailNthAppend { n: std::cell::Cell::new(0), fail_at: 1 }));
+                }
                 ctx.block_on(engine.verif_session_future(handle, "hello".to_string(), None, None));
             }));
             stream_id = sid.clone();
             uri = format!("/sessions/{sid}/events");
             expected_frames = 3;
         }
-        Kind::Task => {
+        Kind::Task | Kind::TaskLogFailure => {
             let kinds = vec![
                 EventKind::ToolTaskCancelRequested { task_id: "t".into(), reason: "a".into() },
                 EventKind::ToolTaskCancelRequested { task_id: "t".into(), reason: "b".into() },
@@ -156,8 +217,12 @@ fn make_world(kind: Kind, rt: &Arc<tokio::runtime::Runtime>, subscribers: usize)
                 .block_on(app.create_task_emit_future(json!({"tool": "bash", "args": {"command": "true"}}), kinds))
                 .expect("task");
             let rt2 = rt.clone();
+            let failing = kind == Kind::TaskLogFailure;
             actors.push(Box::new(move |ctx: &ActorCtx| {
                 let _g = rt2.enter();
+                if failing {
+                    ctx.set_env(Box::new(FailNthAppend { n: std::cell::Cell::new(0), fail_at: 1 }));
+                }
                 ctx.block_on(fut);
             }));
             stream_id = tid.clone();
@@ -204,6 +269,14 @@ fn make_world(kind: Kind, rt: &Arc<tokio::runtime::Runtime>, subscribers: usize)
             expected_frames = 4; // created, m0, m1, m2
         }
     }
+    // log-failure kinds: one subscriber is attached now, before anything is produced
+    let early = if matches!(kind, Kind::SessionLogFailure | Kind::TaskLogFailure) {
+        let _g = rt.enter();
+        let resp = rt.block_on(router.clone().oneshot(Request::builder().uri(uri.clone()).body(Body::empty()).unwrap())).expect("infallible");
+        Some(resp.into_body())
+    } else {
+        None
+    };
     let producers = actors.len();
     for _ in 0..subscribers {
         let sink = Arc::new(Mutex::new(Vec::new()));
@@ -212,7 +285,7 @@ fn make_world(kind: Kind, rt: &Arc<tokio::runtime::Runtime>, subscribers: usize)
         statuses.push(status.clone());
         actors.push(subscriber(router.clone(), uri.clone(), sink, status, rt.clone(), expected_frames, producers));
     }
-    (World { fx, stream_id, received, statuses, expected_frames }, actors)
+    (World { fx, stream_id, received, statuses, expected_frames, early: Mutex::new(early) }, actors)
 }
 
 fn check_exec(report: &Report, kind: Kind, subscribers: usize, world: &World, exec: &Exec) {
@@ -233,6 +306,25 @@ fn check_exec(report: &Report, kind: Kind, subscribers: usize, world: &World, ex
     }
     if !exec.panicked.is_empty() {
         report.violation(&format!("C06:panic:{kind:?}"), case(), &format!("actors panicked: {:?}", exec.panicked));
+        return;
+    }
+    if matches!(kind, Kind::SessionLogFailure | Kind::TaskLogFailure) {
+        // the log lacks the frame whose append failed; the stream is what the early subscriber saw
+        let early: Vec<(u64, String)> = world.early.lock().unwrap().as_mut().map(drain_body_now).unwrap_or_default();
+        if early.len() != world.expected_frames {
+            report.violation(&format!("C06:early_subscriber_missed_frames:{kind:?}"), case(), &format!("the subscriber attached before production received {} of {} frames: {:?}", early.len(), world.expected_frames, early.iter().map(|e| e.0).collect::<Vec<_>>()));
+            return;
+        }
+        for (i, sink) in world.received.iter().enumerate() {
+            let got = sink.lock().unwrap().clone();
+            if got != early {
+                report.violation(
+                    &format!("C06:late_subscriber_differs_after_log_failure:{kind:?}"),
+                    case(),
+                    &format!("one log append failed; the early subscriber received seqs {:?}, late subscriber {i} received {:?}", early.iter().map(|e| e.0).collect::<Vec<_>>(), got.iter().map(|e| e.0).collect::<Vec<_>>()),
+                );
+            }
+        }
         return;
     }
     // truth: the frames of this stream in the log
@@ -345,6 +437,8 @@ pub fn replay(report: &Report, case: &Value) {
         "c06.Session" => Kind::Session,
         "c06.Task" => Kind::Task,
         "c06.TaskTwoEmitters" => Kind::TaskTwoEmitters,
+        "c06.SessionLogFailure" => Kind::SessionLogFailure,
+        "c06.TaskLogFailure" => Kind::TaskLogFailure,
         "c06.Thread" => Kind::Thread,
         _ => Kind::ThreadColdCache,
     };
@@ -404,6 +498,9 @@ pub fn run(opts: Opts) -> i32 {
         let report = &report;
         let b = tier.pick(2, 3);
         scope.spawn(move || run_harness(report, Kind::TaskTwoEmitters, 1, b));
+        // environment answer "error": the second log append of the producer fails
+        scope.spawn(move || run_harness(report, Kind::SessionLogFailure, 1, usize::MAX));
+        scope.spawn(move || run_harness(report, Kind::TaskLogFailure, 1, usize::MAX));
     });
     report.sample(json!({"harness": "c06.Session", "actors": ["producer: run_session('hello')", "subscriber: GET /sessions/{id}/events"], "schedule_example": ["0:start", "0:sess.publish", "1:start", "1:sse.session.subscribe", "1:sse.session.snapshot", "0:sess.buffer", "..."]}));
     report.finish()
